@@ -24,7 +24,8 @@ LEVEL = "exploration"
 RULE = ("one run = one JSON value (a well-formed request of one of the 10 commands / 3 in v1 with 0..3 "
         "seeded mutations: member deleted, retyped, boundary value, extra member, non-object) classified "
         "by a manager that has already served 0..2 earlier requests (unrelated, the same request, or one "
-        "sharing its keyId), in one of 4 manager states reached by injected faults; observed verdict = "
+        "sharing its keyId), in one of 4 manager states reached by injected faults, or with a link failure "
+        "during the request itself; observed verdict = "
         "accepted iff any link activity (APDU, close, enumerate, open) happened or `version` answered 0, "
         "else rejected(code); compared with the three-valued reference; non-trivial = the reference gave "
         "a definite verdict (accept / reject); distinct = tuple (mode, command, mutation kinds, reference "
@@ -49,7 +50,8 @@ ASSUMPTIONS = [
     "requests that crash the handler (empty reply) are C03's subject and yield no verdict here",
 ]
 
-STATES = ["fresh", "after-device-error", "reconnection-pending", "after-failed-reconnection"]
+STATES = ["fresh", "after-device-error", "reconnection-pending", "after-failed-reconnection",
+          "link-fault-in-this-request"]
 WEIRD = [None, True, False, 0, 1, -1, 5, 2 ** 32, 2 ** 64, 1.5, 5.0, "", "x", "zz", "00", [], [1], {},
          {"a": 1}, "0x00", " 00", "00 11"]
 
@@ -205,7 +207,7 @@ def prepare_state(w, ch, state):
     dev, link = w.device, w.link
     probe = {"command": "blockchainState", "version": 5} if not w.v1 else \
         {"command": "getPubKey", "keyId": PATHS[0], "version": 1}
-    if state == "fresh":
+    if state in ("fresh", "link-fault-in-this-request"):
         return
     nxt = link.index
     if state == "after-device-error":
@@ -266,11 +268,25 @@ def run_one(ch, cfg):
         return _res([("harness/state-preparation", "manager stopped while preparing %s" % state)],
                     w, ("prep",), False, {}, {})
     m0 = len(w.link.transport)
+    hit = {}
+    if state == "link-fault-in-this-request":
+        # the request itself meets a link failure at one of its first exchanges: a request the documents
+        # accept can then only end in the generic device error, never in a verdict about its format
+        at = w.link.index + ch.draw(3, "this-request.fault-at")
+        kind = ch.pick(["read_err_before", "write_err", "read_err_after"], "this-request.fault-kind")
+
+        def _ffn(i, a):
+            if i == at:
+                hit["kind"] = kind
+                return kind
+            return None
+        w.link.fault_fn = _ffn
     try:
         line = json.dumps(doc)
     except (TypeError, ValueError):
         line = "null"
     rep, exc = w.request_line(line.encode())
+    w.link.fault_fn = None
     try:
         rep = json.loads(rep.decode())
     except Exception:
@@ -301,6 +317,9 @@ def run_one(ch, cfg):
     elif ref[0] == "accept":
         if observed[0] != "accepted":
             viol.append(("spec/rejected-valid:%s" % tag, desc))
+        elif hit and code not in (0, 1, -905, -906, -2):       # (an exit exchange of uiHeartbeat may fail)
+            viol.append(("spec/format-verdict-after-link-failure:%s" % tag,
+                         desc + " (link failure %s during this request)" % hit["kind"]))
     elif ref[0] == "reject":
         if observed[0] == "accepted":
             if activity:
